@@ -33,7 +33,7 @@ def main():
             run.notes.append("model driver unavailable: correspondence skipped")
             os.environ["OSQ_NO_MODEL"] = "1"
             fn(run)
-    except (OSError, MemoryError, KeyboardInterrupt):
+    except (OSError, MemoryError, KeyboardInterrupt, NameError, ImportError, SyntaxError):
         traceback.print_exc()
         print(f"[{pid}] infrastructure failure"); return 2
     except Exception as ex:
